@@ -162,6 +162,10 @@ for n in ("sq144", "sq132", "sq120", "sq104", "sq64"):
     reg("rs_gluelight_" + n, "ec", ["C06", "C01"], cap=1200 if n == "sq64" else 5400, mem_gb=8 if n == "sq64" else 16, stubbing=True, tier=Q if n == "sq64" else T, role="lemma" if n == "sq64" else "attempt", qprops=["C06"],
         bounds="%s: ecc_block replaced by a stub recording the exact size hint and the first element of the block iterator: block q is handed exactly ceil((n-q)/B) codewords starting with codeword q, results interleaved at q, q+B, ...; first codeword of every block symbolic" % n,
         encodes=["errorcode::encode_error"])
+for n in ("8_3", "7_3", "10_4", "9_3", "11_10"):
+    reg("rs_gluetoy_" + n, "ec", ["C06", "C01"], cap=900, mem_gb=8, stubbing=True, tier=Q, role="lemma", qprops=["C06", "C01"] if n in ("8_3", "10_4") else ["C06"],
+        bounds="scaled-down UNEQUAL blocks (the 144x144 case): SymbolSize::block_setup / num_data_codewords replaced by toy constants n_B = %s (n data codewords over B interleaved blocks, 5 error codewords each), EVERY data codeword symbolic; ecc_block replaced by the recording stub: block q receives exactly ceil((n-q)/B) codewords q, q+B, ... and its result is written to positions q, q+B, ..." % n,
+        encodes=["errorcode::encode_error"])
 reg("rs_il_sq10", "ec", ["C06", "C01"], cap=600, bounds="10x10: all data zero except the last codeword (symbolic): error codewords == a*x^k mod g at the interleaved positions", encodes=["errorcode::encode_error", "errorcode::ecc_block"])
 reg("rs_il_r8x32", "ec", ["C06"], cap=1800, tier=T, role="attempt", bounds="8x32: same", encodes=["errorcode::encode_error"])
 for n in ("sq52", "sq64", "sq144"):
